@@ -46,3 +46,24 @@ RX_INIT_DATASET = {"main": "src/randomx.cpp", "keep": ["randomx_init_dataset"],
                    "pre_rewrites": [{"name": "indirect call through the datasetInit field -> contract stub of the function type",
                                      "pattern": r"cache->datasetInit\(", "repl": "rxv_dataset_init("}],
                    "must_fire": {"recipe rewrite: indirect call through the datasetInit field -> contract stub of the function type": 4}}
+
+DATASET_ITEM = {"main": "src/dataset.cpp", "keep": ["initDataset", "initDatasetItem", "getMixBlock", "SuperscalarProgram::getAddressRegister",
+                                                    "SuperscalarProgram::getSize"],
+                "pre_rewrites": [{"name": "cache read -> recording stub", "function": "initDatasetItem", "pattern": r"\bload64_native\(", "repl": "rxv_load64_native("}],
+                "must_fire": {"recipe rewrite: cache read -> recording stub": 1}}
+
+SOFT_AES = {"main": "src/soft_aes.cpp", "keep": ["soft_aesenc", "soft_aesdec", "rx_*"]}
+
+AES_HASH = {"main": "src/aes_hash.cpp", "keep": ["fillAes1Rx4", "fillAes4Rx4", "hashAes1Rx4", "hashAndFillAes1Rx4", "aesenc", "aesdec", "rx_*"]}
+
+RX_DRIVER = dict(X86, main="src/randomx.cpp", keep=["randomx_calculate_hash", "randomx_calculate_hash_first", "randomx_calculate_hash_next",
+                                                    "randomx_calculate_hash_last", "randomx_vm::getRegisterFile"])
+DRIVER_DECLS = "decls_driver.h"
+
+VM_RESET = dict(X86, main="src/virtual_machine.cpp", keep=["randomx_vm::resetRoundingMode", "rx_reset_float_state", "rx_set_rounding_mode", "rx_get_rounding_mode"])
+
+VM_INIT = {"main": "src/virtual_machine.cpp", "keep": ["randomx_vm::initialize", "getSmallPositiveFloatBits", "getStaticExponent", "getFloatMask", "Program::getEntropy"]}
+
+STR_NE = [{"name": "std::string != -> abstract identity comparison", "pattern": r"machine->cacheKey != cache->cacheKey", "repl": "!rxv_string_eq(&machine->cacheKey, &cache->cacheKey)"}]
+RX_SET_CACHE = {"main": "src/randomx.cpp", "keep": ["randomx_vm_set_cache", "randomx_vm::getMemory", "randomx_vm::usesCache"], "pre_rewrites": STR_NE,
+                "must_fire": {"recipe rewrite: std::string != -> abstract identity comparison": 1}}
